@@ -35,7 +35,9 @@ type c17Case struct {
 }
 
 var c17Valid = []string{"127.0.0.1:%d", "localhost:%d", ":%d", "[::1]:%d", "::1:%d", "0.0.0.0:%d", "[::]:%d"}
-var c17Malformed = []string{"", "127.0.0.1", "127.0.0.1:", "[::1]", "[::1:%d", "999.1.1.1:%d", "1.2.3:%d", "not a host:%d", ":::%d", "[zz]:%d", "localhost", "::1", "256.256.256.256:%d", "[]:%d", "1.2.3.4.5:%d"}
+var c17Malformed = []string{"", "127.0.0.1", "127.0.0.1:", "[::1]", "[::1:%d", "999.1.1.1:%d", "1.2.3:%d", "not a host:%d", ":::%d", "[zz]:%d", "localhost", "::1", "256.256.256.256:%d", "[]:%d", "1.2.3.4.5:%d",
+	// a bracketed literal followed by junk before the port colon
+	"[::1]x:%d", "[::1]]:%d", "[::1][::1]:%d", "[::ffff:127.0.0.1]x:%d", "[::1] :%d", "[[::1]]:%d", "x[::1]:%d", "[127.0.0.1]9:%d"}
 
 func c17Exec(c c17Case, st *lab.Stats) *lab.Fail {
 	if c.GoMaxProcs > 0 {
@@ -286,7 +288,7 @@ func c17Exec(c c17Case, st *lab.Stats) *lab.Fail {
 func TestC17(t *testing.T) {
 	lab.Prop[c17Case]{
 		ID: "C17", Part: "ready",
-		Rule: "rapid: listen addresses valid (127.0.0.1, localhost, empty host, [::1], bare ::1, 0.0.0.0, [::]), malformed (15 forms: empty, no port, empty port, unbalanced brackets, bad IPv4/IPv6, text), valid forms with an out-of-range port number (port +- 65536...) and valid-but-port-already-bound (held by a plain listener of the harness or by another running gldap server), each with and without WithTLSConfig (held by the harness on both loopback families); 0..8 poller goroutines spin on Ready() from BEFORE Run is called and the first one that sees true dials immediately; GOMAXPROCS 1/2/4/16; after a failing Run the caller may retry on the SAME Server (0..2 more failing Runs, then a valid free address, pollers again); oracle = Ready false before Run; Ready true => dial succeeds and a bind is served; Run error => no poller ever saw true and Ready is false afterwards; non-trivial = failing address or pollers spinning before Run; distinct by hash",
+		Rule: "rapid: listen addresses valid (127.0.0.1, localhost, empty host, [::1], bare ::1, 0.0.0.0, [::]), malformed (23 forms: empty, no port, empty port, unbalanced brackets, bad IPv4/IPv6, text, bracketed literals with junk before or after the brackets), valid forms with an out-of-range port number (port +- 65536...) and valid-but-port-already-bound (held by a plain listener of the harness or by another running gldap server), each with and without WithTLSConfig (held by the harness on both loopback families); 0..8 poller goroutines spin on Ready() from BEFORE Run is called and the first one that sees true dials immediately; GOMAXPROCS 1/2/4/16; after a failing Run the caller may retry on the SAME Server (0..2 more failing Runs, then a valid free address, pollers again); oracle = Ready false before Run; Ready true => dial succeeds and a bind is served; Run error => no poller ever saw true and Ready is false afterwards; non-trivial = failing address or pollers spinning before Run; distinct by hash",
 		Gen: func(t *rapid.T) c17Case {
 			c := c17Case{
 				Pollers:    rapid.SampledFrom([]int{0, 1, 2, 4, 8}).Draw(t, "pollers"),
